@@ -192,7 +192,10 @@ func (c *Ctx) checkReturn(rp retPath, fc *FuncContract, fn *ssa.Function, args [
 	}
 	for i, en := range fc.Ensures {
 		g := env.evalBool(en.Expr)
-		c.reportEvalErrors(env, fc, en.Src)
+		if len(env.errs) > 0 {
+			c.reportEvalErrors(env, fc, en.Src)
+			continue // cannot be evaluated on this tree: not decided (no alarm)
+		}
 		label := en.Name
 		if label == "" {
 			label = fmt.Sprint(i + 1)
@@ -301,8 +304,11 @@ func (c *Ctx) checkTraces(s *State, env *Env, fc *FuncContract, trace []Event, l
 		}
 		if tr.Kind == "holds" {
 			g := env.evalBool(tr.Cond)
+			bad := len(env.errs) > 0
 			c.reportEvalErrors(env, fc, tr.Src)
-			c.oblige(s, "trace", name, g, "", "condition over the path: "+tr.Src, props)
+			if !bad {
+				c.oblige(s, "trace", name, g, "", "condition over the path: "+tr.Src, props)
+			}
 			continue
 		}
 		if tr.Kind == "each" {
@@ -315,8 +321,13 @@ func (c *Ctx) checkTraces(s *State, env *Env, fc *FuncContract, trace []Event, l
 				ce := env.child()
 				c.bindEvent(ce, ev)
 				g := ce.evalBool(tr.Cond)
+				bad := false
 				for _, er := range ce.errs[len(env.errs):] {
 					c.unsupported(fmt.Sprintf("trace rule of %s: %s (in %q)", fc.Key, er, tr.Src))
+					bad = true
+				}
+				if bad {
+					continue // cannot be evaluated on this tree: not decided (no alarm)
 				}
 				c.oblige(s, "trace", name, g, ev.Pos, "every "+tr.A+" event must satisfy: "+tr.Src, props)
 			}
